@@ -2,7 +2,7 @@
    Statements only; proofs in Constraints/ModelProofs.v.  well_formed = the non-null values of a
    column share one coarse type (number / string / date), which every pandas column does. *)
 From Coq Require Import ZArith List Bool.
-From Tdda Require Import Base.Sexp Base.Str Generated.Consts Constraints.Model Constraints.ModelProofs.
+From Tdda Require Import Base.Sexp Base.Str Generated.Consts Constraints.Model Constraints.ModelProofs Constraints.AllowedProofs.
 Import ListNotations.
 Open Scope Z_scope.
 
@@ -65,6 +65,13 @@ Theorem C02_verify_type_spec : forall p c ts,
   verify p (Some c) (CType (Some ts)) = type_meaning (p_strict p) c ts.
 Proof. exact verify_type_spec_proof. Qed.
 Print Assumptions C02_verify_type_spec.
+
+(* allowed_values on a string column: passes exactly when every non-null value is one of the allowed values; the
+   verifier's short cut (more distinct values than allowed values => fail unseen) is exact by pigeonhole *)
+Theorem C02_verify_allowed_values_spec : forall p c vs, all_strings (non_nulls c) ->
+  verify p (Some c) (CAllowed (Some vs)) = forallb (fun v => mem_str (str_of v) vs) (non_nulls c).
+Proof. exact verify_allowed_spec. Qed.
+Print Assumptions C02_verify_allowed_values_spec.
 
 Theorem C02_verify_rex_spec : forall p c oks,
   verify p (Some c) (CRex (Some oks)) = (ctype_eqb (c_type c) TString && forallb (fun b => b) oks).
